@@ -43,6 +43,11 @@ INLINE = [
 ]
 IGNORED_CALLS = {"mjcb_time", "snprintf"}
 LOCALS = "$locals"
+TIMER_LOCALS = "$tm"     # the `_tm*` variables of the TM_* timer macros (diagnostics only)
+
+
+def local_field(name):
+    return TIMER_LOCALS if name.startswith("_tm") else LOCALS
 
 
 class Refuse(Exception):
@@ -175,7 +180,7 @@ class Fn:
         if r[0] == "field":
             return {r[1]}
         if r[0] == "local":
-            return set(self.alias.get(r[1], {LOCALS}))
+            return set(self.alias.get(r[1], {local_field(r[1])}))
         if r[0] == "mixed":
             return self.root_fields(r[1]) | self.root_fields(r[2])
         if r[0] == "data":
@@ -239,7 +244,7 @@ class Fn:
             elif xk == "DeclRefExpr":
                 r = self.root(x)
                 if r[0] == "local":
-                    reads.add(LOCALS)
+                    reads.add(local_field(r[1]))
             else:
                 reads |= self.root_fields(self.root(x))
                 self.index_reads(x, reads, writes, kills, calls)
@@ -263,7 +268,7 @@ class Fn:
             for c in inits:
                 self.accesses(c, reads, writes, kills, calls, False)
             if inits:
-                writes.add(LOCALS)
+                writes.add(local_field(n["name"]))
             return
         for c in n.get("inner", []):
             self.accesses(c, reads, writes, kills, calls, False)
@@ -290,9 +295,9 @@ class Fn:
         if r[0] in ("model", "global"):
             raise Refuse("store into the model or a global: %s" % src_text(self.path, lhs))
         if r[0] == "param":
-            fs = {LOCALS}
+            raise Refuse("assignment to a parameter: %s" % src_text(self.path, lhs))
         elif x.get("kind") == "DeclRefExpr" and r[0] == "local":
-            fs = {LOCALS}        # the variable itself (not what it points to)
+            fs = {local_field(r[1])}        # the variable itself (not what it points to)
         else:
             fs = self.root_fields(r) or {LOCALS}
         writes |= fs
@@ -554,7 +559,7 @@ def term_lean(t):
         return '(.const %s "%s")' % (("%d" % t["n"]) if t["n"] >= 0 else "(%d)" % t["n"], esc(t["name"]))
     if t["k"] == "param":
         return '(.param "%s")' % esc(t["x"])
-    return '(.opaque "%s")' % esc(t["s"])
+    return '(.other "%s")' % esc(t["s"])
 
 
 def guard_lean(g):
